@@ -203,7 +203,10 @@ def replay(ctx, payload):
 
 MANIFEST = {
 	'level_text': (
-		'Lean theorems over the model of the CATS parser, Properties/C11.lean: parse_fail_fast / accepted_lines (for every document: one line '
+		'Lean theorems over the model of the CATS parser, Properties/C11.lean: accepted_only_wellformed with accepted_widths_supported, '
+		'accepted_declared_names, accepted_attributes_and_members (for every document, whatever is accepted declares only supported widths, '
+		'names in their classes with two or more characters, known operators, attributes and transforms with the right arity); '
+		'parse_fail_fast / accepted_lines (for every document: one line '
 		'that no line parser accepts in any context rejects the whole document, nothing is returned otherwise), '
 		'missing_final_newline_rejected and leading_blank_line_rejected (all documents), and per catalogue operator a rejection theorem '
 		'quantified over all well-formed names / types / numbers and an arbitrary rest of the line: using_line_rejected with the alias '
